@@ -170,10 +170,15 @@ func (r *Report) finish() int {
 		}
 	}
 	vd := verifDir()
-	os.MkdirAll(filepath.Join(vd, "evidence"), 0o755)
-	os.MkdirAll(filepath.Join(vd, "replay"), 0o755)
+	evDir := filepath.Join(vd, "evidence")
+	rpDir := filepath.Join(vd, "replay")
+	if d := os.Getenv("VERIF_EVIDENCE_DIR"); d != "" {
+		evDir, rpDir = d, d
+	}
+	os.MkdirAll(evDir, 0o755)
+	os.MkdirAll(rpDir, 0o755)
 	for i, o := range viol {
-		rp := filepath.Join(vd, "replay", fmt.Sprintf("%s-%02d.json", r.Prop, i+1))
+		rp := filepath.Join(rpDir, fmt.Sprintf("%s-%02d.json", r.Prop, i+1))
 		b, _ := json.MarshalIndent(map[string]any{
 			"property": r.Prop, "obligation": o, "rule_text": r.Rules[o.Rule],
 			"how_to_replay": fmt.Sprintf("cd /verif && bin/check %s %s   # static: re-derives this obligation from /repo's current source", r.Prop, r.Tier),
@@ -239,7 +244,7 @@ func (r *Report) finish() int {
 		"violations":  nViol,
 	}
 	b, _ := json.MarshalIndent(ev, "", " ")
-	if err := os.WriteFile(filepath.Join(vd, "evidence", r.Prop+".json"), b, 0o644); err != nil {
+	if err := os.WriteFile(filepath.Join(evDir, r.Prop+".json"), b, 0o644); err != nil {
 		fmt.Println("error: cannot write evidence:", err)
 		return 2
 	}
